@@ -2,6 +2,8 @@ package main
 
 import (
 	"go/ast"
+	"os"
+	"path/filepath"
 	"regexp"
 	"strings"
 )
@@ -54,6 +56,25 @@ func c05CallsNamed(n ast.Node, name string) bool {
 	return found
 }
 
+// c05PackageFunc: the function `name` declared in any file of the repository package directory `dir`
+func c05PackageFunc(o *Out, dir, name string) *ast.FuncDecl {
+	ents, err := os.ReadDir(filepath.Join(repoRoot(), dir))
+	if err != nil {
+		return nil
+	}
+	for _, e := range ents {
+		if e.IsDir() || !strings.HasSuffix(e.Name(), ".go") || strings.HasSuffix(e.Name(), "_test.go") {
+			continue
+		}
+		if f := o.ParseFile(dir + "/" + e.Name()); f != nil {
+			if fd := FindFunc(f, "", name); fd != nil && fd.Body != nil {
+				return fd
+			}
+		}
+	}
+	return nil
+}
+
 func init() {
 	extractors["C05"] = func(o *Out) {
 		f := o.ParseFile("app/app.go")
@@ -78,8 +99,12 @@ func init() {
 				cur := ""
 				var pRead, pBoot, pAlign, pHand int
 				hasCtor := false
-				for _, st := range cc.Body {
-					Walk(st, func(m ast.Node) bool {
+				var ctorLast ast.Expr
+				// scan finds read / boot / align under root; argSel tells which exported config field an argument is
+				opaque, depth := false, 0
+				var rescan func(root ast.Node, argSel func(ast.Expr) string, isLatest func(ast.Node) bool)
+				scan := func(root ast.Node, argSel func(ast.Expr) string, isLatest func(ast.Node) bool) {
+					Walk(root, func(m ast.Node) bool {
 						switch s := m.(type) {
 						case *ast.AssignStmt:
 							if len(s.Rhs) != 1 || len(s.Lhs) < 1 {
@@ -91,14 +116,87 @@ func init() {
 								return true
 							}
 							switch c05FunName(c.Fun) {
+							default:
+								// `V = helper(V, …)`: a package-local function that takes the start block and returns it —
+								// follow it one level (the nil-check / alignment may live there)
+								fid, isLocal := c.Fun.(*ast.Ident)
+								if !isLocal || cur == "" || depth > 0 {
+									return true
+								}
+								argIdx := -1
+								for i, a := range c.Args {
+									if Src(a) == cur {
+										argIdx = i
+									}
+								}
+								if argIdx < 0 {
+									return true
+								}
+								opaque = true
+								h := c05PackageFunc(o, "app", fid.Name)
+								if h == nil {
+									return true
+								}
+								sub := map[string]ast.Expr{}
+								hcur := ""
+								i := 0
+								for _, p := range h.Type.Params.List {
+									for _, pn := range p.Names {
+										if i < len(c.Args) {
+											sub[pn.Name] = c.Args[i]
+										}
+										if i == argIdx {
+											hcur = pn.Name
+										}
+										i++
+									}
+								}
+								if hcur == "" {
+									return true
+								}
+								saveCur := cur
+								cur = hcur
+								depth++
+								hSel := func(e ast.Expr) string {
+									if id, ok := e.(*ast.Ident); ok {
+										if x, ok := sub[id.Name]; ok {
+											return argSel(x)
+										}
+									}
+									return c05SelName(e)
+								}
+								before := w
+								rescan(h.Body, hSel, func(n ast.Node) bool { return c05CallsNamed(n, "LatestBlock") })
+								depth--
+								returnsCur := false
+								Walk(h.Body, func(k ast.Node) bool {
+									if r, ok := k.(*ast.ReturnStmt); ok && len(r.Results) >= 1 && Src(r.Results[0]) == cur {
+										returnsCur = true
+									}
+									return true
+								})
+								if returnsCur && (w.boot != before.boot || w.aligns != before.aligns) {
+									opaque = false
+									if w.boot && !before.boot {
+										pBoot = int(s.Pos())
+									}
+									if w.aligns && !before.aligns {
+										pAlign = int(s.Pos()) + 1
+									}
+									cur = id.Name
+									o.Facts["wiring_"+name+"_via_helper"] = fid.Name
+								} else {
+									w = before
+									cur = saveCur
+								}
 							case "GetStartBlock":
-								if len(c.Args) == 4 && c05SelName(c.Args[1]) == "StartBlock" && c05SelName(c.Args[2]) == "LatestBlock" && c05SelName(c.Args[3]) == "FreshStart" {
+								if len(c.Args) == 4 && argSel(c.Args[1]) == "StartBlock" && argSel(c.Args[2]) == "LatestBlock" && argSel(c.Args[3]) == "FreshStart" {
 									w.reads = true
 									cur = id.Name
 									pRead = int(s.Pos())
 								}
 							case "CalculateStartingBlock":
-								if cur != "" && len(c.Args) == 2 && Src(c.Args[0]) == cur && c05SelName(c.Args[1]) == "BlockInterval" {
+								if cur != "" && len(c.Args) == 2 && Src(c.Args[0]) == cur && argSel(c.Args[1]) == "BlockInterval" {
 									w.aligns = true
 									cur = id.Name
 									pAlign = int(s.Pos())
@@ -113,25 +211,102 @@ func init() {
 									}
 									return true
 								})
-								if assigned && c05CallsNamed(s.Body, "LatestBlock") {
+								if assigned && isLatest(s.Body) {
 									w.boot = true
 									pBoot = int(s.Pos())
 								}
-							}
-						case *ast.CallExpr:
-							if chainCtor.MatchString(c05FunName(s.Fun)) && len(s.Args) > 0 {
-								hasCtor = true
-								if cur != "" && Src(s.Args[len(s.Args)-1]) == cur {
-									w.hands = true
-									pHand = int(s.Pos())
-								}
-								o.Facts["ctor_"+name] = c05FunName(s.Fun)
 							}
 						}
 						return true
 					})
 				}
-				w.located = w.reads || hasCtor
+				rescan = scan
+				for _, st := range cc.Body {
+					scan(st, c05SelName, func(n ast.Node) bool { return c05CallsNamed(n, "LatestBlock") })
+					Walk(st, func(m ast.Node) bool {
+						if s, ok := m.(*ast.CallExpr); ok && chainCtor.MatchString(c05FunName(s.Fun)) && len(s.Args) > 0 {
+							hasCtor = true
+							ctorLast = s.Args[len(s.Args)-1]
+							if cur != "" && Src(ctorLast) == cur {
+								w.hands = true
+								pHand = int(s.Pos())
+							}
+							o.Facts["ctor_"+name] = c05FunName(s.Fun)
+						}
+						return true
+					})
+				}
+				viaHelper := false
+				if !w.reads && hasCtor {
+					// the start block may come from a package-local helper: `V := helper(args…)` … New…Chain(…, V)
+					if v, ok := ctorLast.(*ast.Ident); ok {
+						var call *ast.CallExpr
+						for _, st := range cc.Body {
+							Walk(st, func(m ast.Node) bool {
+								if a, ok := m.(*ast.AssignStmt); ok && len(a.Lhs) >= 1 && Src(a.Lhs[0]) == v.Name && len(a.Rhs) == 1 {
+									if c, ok := a.Rhs[0].(*ast.CallExpr); ok {
+										if _, ok := c.Fun.(*ast.Ident); ok {
+											call = c
+										}
+									}
+								}
+								return true
+							})
+						}
+						if call != nil {
+							viaHelper = true
+							if h := c05PackageFunc(o, "app", call.Fun.(*ast.Ident).Name); h != nil {
+								subst := map[string]ast.Expr{}
+								i := 0
+								for _, p := range h.Type.Params.List {
+									for _, pn := range p.Names {
+										if i < len(call.Args) {
+											subst[pn.Name] = call.Args[i]
+										}
+										i++
+									}
+								}
+								argSel := func(e ast.Expr) string {
+									if id, ok := e.(*ast.Ident); ok {
+										if s, ok := subst[id.Name]; ok {
+											return c05SelName(s)
+										}
+									}
+									return c05SelName(e)
+								}
+								isLatest := func(n ast.Node) bool {
+									if c05CallsNamed(n, "LatestBlock") {
+										return true
+									}
+									found := false
+									Walk(n, func(m ast.Node) bool {
+										if c, ok := m.(*ast.CallExpr); ok {
+											if id, ok := c.Fun.(*ast.Ident); ok {
+												if s, ok := subst[id.Name]; ok && c05SelName(s) == "LatestBlock" {
+													found = true
+												}
+											}
+										}
+										return true
+									})
+									return found
+								}
+								scan(h.Body, argSel, isLatest)
+								Walk(h.Body, func(m ast.Node) bool {
+									if r, ok := m.(*ast.ReturnStmt); ok && len(r.Results) >= 1 && cur != "" && Src(r.Results[0]) == cur {
+										w.hands = true
+										pHand = int(r.Pos())
+									}
+									return true
+								})
+								o.Facts["wiring_"+name+"_via_helper"] = h.Name.Name
+							}
+						}
+					}
+				}
+				// a branch whose start block comes out of a package-local call that the translator could not see through is
+				// UNAVAILABLE, not different
+				w.located = (w.reads || (hasCtor && !viaHelper)) && !opaque
 				w.ordered = w.reads && w.hands && pRead < pHand && (!w.boot || (pRead < pBoot && pBoot < pHand)) &&
 					(!w.aligns || (pRead < pAlign && pAlign < pHand)) && (!(w.boot && w.aligns) || pBoot < pAlign)
 				ws[name] = w
